@@ -194,6 +194,11 @@ func doReplay(b builds, path string) int {
 		fatal("replay file: %v", err)
 	}
 	tries := 1
+	if rec.Class == "data_race" {
+		// the schedule replays exactly, the detector does not: about one process in twenty
+		// executing the identical event log reports nothing (DESIGN 6.4)
+		tries = 8
+	}
 	if rec.ReplayMode == "probabilistic" {
 		tries = 256
 	}
